@@ -143,6 +143,13 @@ Definition w_message_begin_at (buf : bytes) (off : N) (name : bytes) (ty seq : Z
   do (s', n) <- w_message_begin s name ty seq;
   Ok (take off buf ++ s', n).
 
+(* a sequence of in-place writes: n := Binary.WriteX(buf[off:], v); off += n *)
+Fixpoint w_seq (buf : bytes) (off : N) (its : list item) : res (bytes * list N) :=
+  match its with
+  | [] => Ok (buf, [])
+  | it :: r => do (b1, n) <- w_at buf off it; do (b2, ns) <- w_seq b1 (off + n) r; Ok (b2, n :: ns)
+  end.
+
 (* ---------- append writers, with the code's shift-and-truncate expressions ---------- *)
 (* byte(v >> k) for an unsigned v *)
 Definition shrb (v : N) (k : N) : N := (v / 2 ^ k) mod 256.
